@@ -146,6 +146,8 @@ CASES = [
                  "Rs.fail \"Status::invalid_argument\"",
                  "ext_Node_with_channel self.node self.id (H.f__with_channel_1 ext_Channel_validate ext_Channel_revoke ext_Channel_activate n)"]),
      ("H", "f"), WC_EXT),
+    ("mutexnew", "pub struct G { pub st: Mutex<S>, pub n: u64 }\nimpl G { fn new(s: S, n: u64) -> Self { Self { st: Mutex::new(s), n } } }",
+     ("expect", ["{ st := s, n := n }"]), ("G", "new")),
     ("boxnew", "pub struct R { pub a: u64 }\nfn f(x: u64) -> Result<Box<R>, ()> { Ok(Box::new(R { a: x })) }", ("expect", ["pure { a := x }"])),
     ("letany", "fn f(o: Option<Sk>) -> Option<Ds> { let r = o.map(|s| Ds(s[..].try_into().unwrap())); r }",
      ("expect", ["(ext_let_r : (Option Sk) → (Option Ds))", "let r := (ext_let_r o)"]), (None, "f"),
